@@ -413,6 +413,15 @@ pub fn query_battery(w: &World, h: &Hist, book: &Book, r: &mut Rng, st: &mut Sta
         for (kind, ns) in [("get_ask", "ask"), ("get_bid", "bid")] {
             let res = w.query(&json!({kind: {"id": id}}));
             let raw = w.store.data.get(&map_key(ns, id)).and_then(|v| serde_json::from_slice::<Value>(v).ok());
+            // entries in another storage format (legacy bids before a migration) are not judged here
+            let current_format = match (&raw, ns) {
+                (Some(v), "ask") => Ask::from_json(v).is_some(),
+                (Some(v), _) => Bid::from_json(v).is_some(),
+                (None, _) => true,
+            };
+            if !current_format {
+                continue;
+            }
             let on_book = raw.is_some();
             st.eval("C16", format!("{}|{}|{}|{}", kind, if on_book { "on-book" } else { status }, if canon_uuid(id) { "canonical" } else { "other-form" }, if res.is_ok() { "ok" } else { "err" }));
             if on_book || *status != "open" {
